@@ -98,6 +98,9 @@ class Bucket:
                 microsecond=1000 * int(starttime.microsecond / 1000)
             )
         if endtime:
+            if endtime.tzinfo is not None:
+                # the arithmetic below is wall-clock arithmetic: in UTC it cannot lose the fold of an ambiguous local time
+                endtime = endtime.astimezone(timezone.utc)
             # Rounding up here in order to ensure events aren't missed
             # second_offset and microseconds modulo required since replace() only takes microseconds up to 999999 (doesn't handle overflow)
             milliseconds = 1 + int(endtime.microsecond / 1000)
